@@ -332,7 +332,7 @@ def nested_doc(rng, sub, variant):
 def run_shard(ctx):
     acc = ctx.acc
     rng = ctx.rng("real")
-    n = 2500 if ctx.quick() else 60000
+    n = 9000 if ctx.quick() else 150000
     for j in range(n):
         if ctx.out_of_time():
             acc.notes.append("time budget reached after %d docs" % j)
